@@ -255,13 +255,20 @@ def random_on(r, big):
     fixed = {v: i for i, v in enumerate(vals)}
     for ep in range(e_lo, e_hi + 1):
         row = {}
+        taken = set()
         for v in vals:
-            s = ep * spe + r.randrange(spe)
-            if clean:
-                c, p = 0, fixed[v]
+            for _ in range(50):   # a seat (slot, committee, position) holds one validator
+                s = ep * spe + r.randrange(spe)
+                if clean:
+                    c, p = 0, fixed[v]
+                else:
+                    c = r.randrange(len(size_of(s)))
+                    p = r.randrange(size_of(s)[c])
+                if (s, c, p) not in taken:
+                    break
             else:
-                c = r.randrange(len(size_of(s)))
-                p = r.randrange(size_of(s)[c])
+                continue
+            taken.add((s, c, p))
             row[str(v)] = [s, c, p]
         if clean or r.random() < 0.9:
             duty[str(ep)] = row
@@ -275,11 +282,15 @@ def random_on(r, big):
             d = duty.get(str(ep), {}).get(str(v))
             if d and start + 1 <= d[0] <= start + 10:
                 cand.append((v, d))
-    if not cand:                  # make one: validator vals[0] attests at start + 2
+    if not cand:                  # make one: validator vals[0] attests at start + 2 (alone in its epoch row)
         s = start + 2
         c = 0 if clean else r.randrange(len(size_of(s)))
         p = fixed[vals[0]] if clean else r.randrange(size_of(s)[c])
-        duty.setdefault(str(s // spe), {})[str(vals[0])] = [s, c, p]
+        row = duty.setdefault(str(s // spe), {})
+        for v2 in list(row):
+            if row[v2] == [s, c, p]:
+                del row[v2]
+        row[str(vals[0])] = [s, c, p]
         cand.append((vals[0], [s, c, p]))
     by_slot = {}
     for v, d in cand:
@@ -291,8 +302,7 @@ def random_on(r, big):
         for v, d in lst:
             c, p = d[1], d[2]
             sz = size_of(D)[c] if c < len(size_of(D)) else 1
-            vv = v if (clean or r.random() < 0.97) else -1
-            ents.append(ent(pk_of[v], "att", ver=ver, r=rid, v=vv, comm=c, pos=p, size=sz))
+            ents.append(ent(pk_of[v], "att", ver=ver, r=rid, v=v, comm=c, pos=p, size=sz))
             roots.append((D, rid, c, p, sz))
         r.shuffle(ents)
         while ents:
